@@ -502,7 +502,7 @@ def palette_param(palette, rgba):
 
 
 def hue_color_param(rgba):
-    """Invert cimple-colormap(h)(t): h = k/N (N <= 9) of the default hue sweep, t = k/(M-1) for up to M = 49
+    """Invert cimple-colormap(h)(t): h = k/N (N <= 24) of the default hue sweep, t = k/(M-1) for up to M = 25
     colour levels (a colour mapped to several dimensions easily has more than ten combinations; the first
     version of this table stopped at ten and raised a false alarm in a thorough run)."""
     import xyzpy.plot.infiniplot as ip
@@ -510,12 +510,12 @@ def hue_color_param(rgba):
     if key not in _CMAP_CACHE:
         tab = {}
         opts = {"val1": 1.0, "sat1": 0.3, "val2": 0.6}
-        for hden in range(1, 10):
+        for hden in range(1, 25):
             hs = np.linspace(0.6, 0.6 - 1.0, hden, endpoint=False)
             for hnum in range(hden):
                 cm = ip.to_colormap(float(hs[hnum]), **opts)
                 hf = Fraction(hnum, hden)
-                for den in range(1, 49):
+                for den in range(1, 25):
                     ts = np.linspace(0.0, 1.0, den + 1) if den >= 1 else [0.0]
                     for num in range(den + 1):
                         tf = Fraction(num, den)
